@@ -179,6 +179,17 @@ create_trace_stream(void)
 
 	if (rthread.streamfd == -1)
 		die("open %s failed:", path);
+
+	/* A program started with a standard descriptor closed gets that
+	 * number here, and whatever is then printed to it (our own warnings
+	 * included) would land in the middle of the stream */
+	if (rthread.streamfd <= STDERR_FILENO) {
+		int fd = fcntl(rthread.streamfd, F_DUPFD, STDERR_FILENO + 1);
+		if (fd == -1)
+			die("cannot move the descriptor of %s:", path);
+		close(rthread.streamfd);
+		rthread.streamfd = fd;
+	}
 }
 
 void
